@@ -12,8 +12,10 @@ EXPLANATION = (
     "order (its last key is primary), the rank fallback is method='min' (ties share a rank so later keys and the stable "
     "lexsort decide), no other sort primitive is used; (DIR) every use of a direction is dominated by the check that "
     "rejects values other than 1/-1; (GRD-empty/GRD-width) reductions and fixed-width casts reached while building sort "
-    "keys are guarded for empty and entirely missing columns; (OWN-2) building keys never writes the receiver. "
-    "Not decided: that the order is right for each dtype, NA placement."
+    "keys are guarded for empty and entirely missing columns; (OWN-2) building keys never writes the receiver; (ORD-key) a dtype-class "
+    "dataflow over sort_key (which element types may reach each point, refined by the is_* tests; NumPy fact: timedelta64 is an "
+    "integer) judges every negation, bitwise complement and as_* conversion of a key against the types on which it keeps all order "
+    "relations. Not decided: the comparison semantics of each dtype itself, NA placement."
 )
 ASSUMPTIONS = ["np.lexsort is a stable sort whose last key is the primary key and returns a permutation"]
 
